@@ -39,6 +39,8 @@ def run(ctx):
             fm.append(c09.rand_format(r, nconv=r.choice([1, 1, 2, 3]), wide=r.random() < 0.15))
         for _ in range(150 if quick else 4000):          # wide characters straddling the limit
             fm.append(c09.lc_format(r))
+        for _ in range(150 if quick else 4000):          # library strings cut by precision and by the limit
+            fm.append(c09.us_format(r))
         # lengths from the exact reference (the implementation's own unbounded output is compared by the oracle)
         cases = [c for c in vlib.load_corpus("C10") if not c[0].startswith("pf print")]
         nlines = 0
